@@ -96,13 +96,58 @@ func getServerRoles(P *Program) (*serverRoles, []string) {
 		}
 		return out
 	}
-	if cs := callersIn(sr.StringMatcher); len(cs) == 1 {
+	// the rule matcher takes one trigger rule, the decision takes the list of rules; both reach the string
+	// matcher (possibly through a helper). When the parameter types do not single them out, fall back to
+	// the chain of unique callers.
+	hasParam := func(fn *ssa.Function, pred func(types.Type) bool) bool {
+		for _, p := range fn.Params {
+			if pred(p.Type()) {
+				return true
+			}
+		}
+		return false
+	}
+	isRule := func(t types.Type) bool { return typeID(t) == pkgCfgV1+".TriggerRule" }
+	isRuleList := func(t types.Type) bool {
+		sl, ok := t.Underlying().(*types.Slice)
+		return ok && typeID(sl.Elem()) == pkgCfgV1+".TriggerRule"
+	}
+	reaches := func(fn, target *ssa.Function) bool {
+		for _, g := range deepFuncs(fn, 3) {
+			if g == target {
+				return true
+			}
+		}
+		return false
+	}
+	var rms, tds []*ssa.Function
+	for _, fn := range P.Funcs {
+		if pkgPathOf(fn) != pkgServer || fn.Parent() != nil || fn == sr.StringMatcher {
+			continue
+		}
+		if hasParam(fn, isRule) && reaches(fn, sr.StringMatcher) {
+			rms = append(rms, fn)
+		}
+	}
+	if len(rms) == 1 {
+		sr.RuleMatcher = rms[0]
+	} else if cs := callersIn(sr.StringMatcher); len(cs) == 1 {
 		sr.RuleMatcher = cs[0]
 	} else {
 		missing = append(missing, fmt.Sprintf("RuleMatcher(%d candidates)", len(cs)))
 		return sr, missing
 	}
-	if cs := callersIn(sr.RuleMatcher); len(cs) == 1 {
+	for _, fn := range P.Funcs {
+		if pkgPathOf(fn) != pkgServer || fn.Parent() != nil || fn == sr.RuleMatcher {
+			continue
+		}
+		if hasParam(fn, isRuleList) && reaches(fn, sr.RuleMatcher) {
+			tds = append(tds, fn)
+		}
+	}
+	if len(tds) == 1 {
+		sr.Trigger = tds[0]
+	} else if cs := callersIn(sr.RuleMatcher); len(cs) == 1 {
 		sr.Trigger = cs[0]
 	} else {
 		missing = append(missing, fmt.Sprintf("TriggerDecision(%d candidates)", len(cs)))
@@ -521,6 +566,20 @@ func c07R3(c *Check, sr *serverRoles) {
 			}
 			c.Obl(nz >= 2, "C07.R3", fmt.Sprintf("not-triggered-return#%d", i+1), P.Pos(instrPos(r)),
 				"`return false` only with rules and a non-empty path", "`return false` is reachable although there are no rules or the path is empty")
+			// … and only after every rule was consulted: the return lies behind the exhaustion of the loop that
+			// calls the rule matcher (no other early `not triggered`)
+			after := false
+			for _, site := range callsToFn(fn, sr.RuleMatcher) {
+				if head := loopHeadOf(site.Block()); head != nil {
+					for _, sx := range head.Succs {
+						if !blockReaches(sx, site.Block()) && (sx == r.Block() || sx.Dominates(r.Block())) {
+							after = true
+						}
+					}
+				}
+			}
+			c.Obl(after, "C07.R3", fmt.Sprintf("not-triggered-after-all-rules#%d", i+1), P.Pos(instrPos(r)),
+				"`return false` lies behind the exhaustion of the rule loop", "`return false` is reachable before every rule has been consulted: one rule (or a pre-check) vetoes the disjunction over rules")
 		}
 	}
 
